@@ -335,6 +335,28 @@ def rule_c(ctx):
                     rel, bound = {"Lt": "Gt", "LtE": "GtE", "Gt": "Lt", "GtE": "LtE"}.get(type(c.ops[0]).__name__, type(c.ops[0]).__name__), norm(c.left)
                 out.append((rel, "lower" if "lower" in bound else "upper"))
         return sorted(set(out))
+    # presence of a bound is decided by `is None`, never by truth value: 0.0 is a bound
+    def truth_tests(fn):
+        out = []
+        for x in ast.walk(fn.node):
+            tests = []
+            if isinstance(x, (ast.If, ast.IfExp, ast.While)):
+                tests.append(x.test)
+            elif isinstance(x, ast.BoolOp):
+                tests.extend(x.values)
+            elif isinstance(x, ast.UnaryOp) and isinstance(x.op, ast.Not):
+                tests.append(x.operand)
+            for t in tests:
+                while isinstance(t, ast.UnaryOp) and isinstance(t.op, ast.Not):
+                    t = t.operand
+                if isinstance(t, ast.Attribute) and norm(t) in ("self._threshold_upper", "self._threshold_lower"):
+                    out.append(t)
+        return out
+    for fn in m.cls(STM, "StaticThresholdModel").methods.values():
+        tt = truth_tests(fn)
+        if tt or fn in (h, g):
+            ctx.ob(R, fn.qname, "an optional threshold is tested with `is None`, not by its truth value", not tt,
+                   f"`{norm(tt[0])}` is used as a truth value: a bound of 0 (or an array of bounds) is treated as 'no bound' / raises" if tt else "", tt[0] if tt else fn.node, evidence=True)
     oh, og = ops(h, h.params[1]), ops(g, g.params[1])
     ctx.ob(R, g.qname, "both variants use strict > lower and < upper", oh == og == [("Gt", "lower"), ("Lt", "upper")], f"homogeneous {oh}, heterogeneous {og}", g.node)
     loops = [l for l in ast.walk(g.node) if isinstance(l, ast.For)]
@@ -389,6 +411,13 @@ def rule_e(ctx):
         lc = m.method(k, "linear_combination")
         ctx.instance(R)
         inner = [n for n in ast.walk(lc.node) if isinstance(n, ast.FunctionDef) and n is not lc.node]
+        if not inner:
+            # the compiled kernel may live at module level: the function of this module that linear_combination returns the value of
+            for r_ in ast.walk(lc.node):
+                if isinstance(r_, ast.Return) and isinstance(r_.value, ast.Call):
+                    g_ = m.resolve_call(r_.value, lc)
+                    if g_ is not None and hasattr(g_, "node") and getattr(g_, "cls", None) is None and g_.module is lc.module:
+                        inner.append(g_.node)
         ctx.need(len(inner) == 1, f"{lc.qname}: numba kernel not found")
         inner = inner[0]
         sig, sup, wts = (a.arg for a in inner.args.args[:3])
@@ -469,8 +498,12 @@ def rule_e(ctx):
             fn = loop_form(aug, envn, nvar)
             Wn = Poly.atom(f"{wts}[{nvar}]")
             ctx.ob(R, lc.qname, f"{cname}: loop summand is weights[n] * kernel(signal, supports[n])", fn + Wn * c == Wn * kf, f"{fn!r} vs {Wn * kf!r}", lp)
-            amk = AM(lc)
-            ctx.ob(R, lc.qname, f"{cname}: loop covers n = 1 .. num_supports - 1", amk.has(inner, f"count = len({sup})") is not None and amk.eq(lp.iter, "range(1, count)"), norm(lp.iter), lp)
+            from ..flow import expand as _ex2
+
+            it_x = norm(_ex2(inner, lp.iter))
+            rng_ok = it_x in (f"range(1, len({sup}))", f"range(1, {sup}.shape[0])", f"range(1, len({wts}))", f"range(1, {wts}.shape[0])")
+            starts_late = it_x.startswith("range(2") or it_x.startswith("range(0") or (it_x.startswith("range(") and "," not in it_x)
+            ctx.ob(R, lc.qname, f"{cname}: loop covers n = 1 .. num_supports - 1", rng_ok, it_x if starts_late else "", lp, evidence=starts_late)
         except NotPolynomial as e:
             raise AnalysisError(f"{lc.qname}: kernel expression outside the polynomial language: {e}")
         deco = [d for d in inner.decorator_list if isinstance(d, ast.Call) and norm(d.func) in ("numba.jit", "numba.njit")]
